@@ -376,6 +376,10 @@ for cnt in (100, 126, 128, 255, 256):
     c20.append((f"long_list_{cnt}", f"let a = arr![{lst}]; let b = box_arr![{lst},]; assert_eq!(a.len(), {cnt}); assert_eq!(b.len(), {cnt});"))
 c20.append(("type_lengths_without_const", "let a = arr![7u8; Sum<U1024, U1>]; let b = arr![7u8; Prod<U100, U11>]; const C: GenericArray<u16, Prod<U500, U3>> = arr![1u16; Prod<U500, U3>]; let d = box_arr![0u8; Prod<U100, U11>]; let _ = (a.len(), b.len(), C.len(), d.len());"))
 c20.append(("type_repeat_in_const", "const A: GenericArray<u8, U0> = arr![1u8; U0]; const B: GenericArray<u32, U7> = arr![9u32; U7]; static S: GenericArray<(u8, u16), U4> = arr![(1u8, 2u16); U4]; const U: GenericArray<(), U3> = arr![(); U3]; let _ = (A, B, S.len(), U);"))
+# length expressions that mention the surrounding item (a nested const item could not see these)
+c20.append(("len_from_self", "struct S; impl S { const LEN: usize = 3; fn f() -> GenericArray<u8, U3> { arr![7u8; { Self::LEN }] } const TABLE: GenericArray<u16, U3> = arr![1u16; { Self::LEN }]; } let _ = (S::f(), S::TABLE);"))
+c20.append(("len_from_const_generic", "fn rep<const K: usize>(x: u8) -> GenericArray<u8, generic_array::ConstArrayLength<K>> where Const<K>: generic_array::IntoArrayLength { arr![x; { K }] } const fn crep<const K: usize>() -> GenericArray<u8, generic_array::ConstArrayLength<K>> where Const<K>: generic_array::IntoArrayLength { arr![9u8; { K }] } let a: GenericArray<u8, U4> = rep::<4>(1); let b: GenericArray<u8, U2> = crep::<2>(); let _ = (a, b);"))
+c20.append(("len_from_trait_const", "trait W { const WIDTH: usize; } struct P; impl W for P { const WIDTH: usize = 2; } impl P { fn g() -> GenericArray<i32, U2> { arr![5; { <Self as W>::WIDTH }] } } let _ = P::g();"))
 for name, body in c20:
     probe("C20", "probe-arrmac", "probe_arr_" + name, body, toplevel=SLOT)
 
@@ -401,6 +405,16 @@ for n, m in ((2, 3), (3, 2), (1, 4), (4, 1), (2, 1), (1, 2), (3, 1)):
     nm = n * m
     probe("C11", "probe-unflatten", f"probe_unflatten_explicit_{n}_{m}",
           f"let a: GenericArray<u32, U{nm}> = Default::default(); let r: GenericArray<GenericArray<u32, U{n}>, U{m}> = Unflatten::<u32, U{nm}, U{n}>::unflatten(a); let b: GenericArray<u32, U{nm}> = Default::default(); let v: &GenericArray<GenericArray<u32, U{n}>, U{m}> = Unflatten::<u32, U{nm}, U{n}>::unflatten(&b); let mut c: GenericArray<u32, U{nm}> = Default::default(); let w: &mut GenericArray<GenericArray<u32, U{n}>, U{m}> = Unflatten::<u32, U{nm}, U{n}>::unflatten(&mut c); let f: GenericArray<u32, U{nm}> = Flatten::<u32, U{n}, U{m}>::flatten(r); let _ = (v.len(), w.len(), f.len());")
+
+
+# the mutable regroupings borrow their source for as long as they live ("no overlap" in C10 terms):
+for fn_name, call in (("chunks_from_slice_mut", "GenericArray::<u8, U2>::chunks_from_slice_mut(&mut v)"),):
+    add("c10_alias_chunks_mut_acc", f"let mut v = [1u8, 2, 3, 4, 5]; {{ let (c, r) = {call}; c[0][0] = 9; r[0] = 8; }} {{ let (c2, _r2) = {call}; c2[1][1] = 7; }} let _ = v;", "accept", "Bw", "alias-mut", prop="C10")
+    add("c10_alias_chunks_mut_rej1", f"let mut v = [1u8, 2, 3, 4, 5]; let (c, _r) = {call}; let (c2, _r2) = {call}; c[0][0] = 9; c2[0][0] = 8;", "reject", "Bw", "alias-mut", twin="c10_alias_chunks_mut_acc", prop="C10")
+    add("c10_alias_chunks_mut_rej2", f"let c = {{ let mut v = [1u8, 2, 3, 4, 5]; let (c, _r) = {call}; c }}; let _ = c.len();", "reject", "Bw", "alias-mut", twin="c10_alias_chunks_mut_acc", prop="C10")
+    add("c10_alias_chunks_mut_rej3", f"let mut v = [1u8, 2, 3, 4, 5]; let (c, _r) = {call}; v[0] = 1; c[0][0] = 9;", "reject", "Bw", "alias-mut", twin="c10_alias_chunks_mut_acc", prop="C10")
+add("c10_alias_slice_from_chunks_mut_rej", "let mut g = [arr![1u8, 2], arr![3u8, 4]]; let f = GenericArray::slice_from_chunks_mut(&mut g); let f2 = GenericArray::slice_from_chunks_mut(&mut g); f[0] = 1; f2[0] = 2;", "reject", "Bw", "alias-mut", twin="c10_alias_chunks_mut_acc", prop="C10")
+add("c10_alias_from_chunks_mut_rej", "let mut n = [[1u8, 2], [3, 4]]; let g: &mut [GenericArray<u8, U2>] = GenericArray::from_chunks_mut(&mut n); n[0][0] = 5; g[0][0] = 6;", "reject", "Bw", "alias-mut", twin="c10_alias_chunks_mut_acc", prop="C10")
 
 # ------------------------------------------------------------------ API-surface probes for the run-time properties
 # If a change makes an engine stop compiling, its property's probes say whether the API moved
